@@ -10,7 +10,8 @@ package main
 // concatenation, boxing, phi, element access, storing into and loading from a local variable, results of calls that
 // receive a tainted argument). Comparisons and len() are NOT propagated (implicit flows and lengths are outside the
 // claim). A tainted value may be used only at the listed sinks:
-//     CALLEE#k.argN        the N-th argument (receiver excluded) of the k-th call of CALLEE; the call consumes the
+//     CALLEE#k.argN        the N-th argument (receiver excluded) of the k-th call of CALLEE (or CALLEE#k.NAME: the
+//                          callee's parameter of that name, whatever its position); the call consumes the
 //                          value (its results are clean: the callee's own contract answers for what it does with it)
 //     via:CALLEE#k.argN    same, but the results of the call are tainted (strings.Join, append-like helpers)
 //     store:Type.field     a store into that field
@@ -286,8 +287,13 @@ func (v *Verifier) flowCheck(f *ssa.Function, fl *FlowClause) string {
 							continue
 						}
 						ok := false
+						// a sink may name the callee's parameter instead of its position: CALLEE#k.NAME
+						pname := ""
+						if callee, isFn := cc.Value.(*ssa.Function); isFn && i < len(callee.Params) {
+							pname = callee.Params[i].Name()
+						}
 						for _, sname := range sites[in] {
-							if sinks[fmt.Sprintf("%s.arg%d", sname, i-off)] {
+							if sinks[fmt.Sprintf("%s.arg%d", sname, i-off)] || (pname != "" && sinks[sname+"."+pname]) {
 								ok = true
 							}
 							if sinks[fmt.Sprintf("via:%s.arg%d", sname, i-off)] {
